@@ -49,7 +49,7 @@ CHECKS["C09"] = dict(
 
 CHECKS["C10"] = dict(
     category="model_checking",
-    technique="TLA+ model of the lazily loaded, partly shared rule tables (RuleCache.tla) model-checked by TLC (invariant Fresh); model histories and seeded random histories executed in 16 concurrent sessions; TLC validates that memo: (expression, preferences at set time, preferences now, getter) -> output stays a function (Trace_Memo.tla); plus cross-subsystem session walks (preferences, expressions, getters, navigation, routing, rule files damaged and repaired in between) with the complete projected state after every call validated by TLC against the umbrella specification Session.tla (Trace_Session.tla; this property's clauses at property level, the step relation at refinement level)",
+    technique="TLA+ model of the lazily loaded, partly shared rule tables (RuleCache.tla) model-checked by TLC (invariant Fresh); model histories and seeded random histories executed in 16 concurrent sessions; TLC validates that memo: (expression, preferences at set time, preferences now, getter) -> output stays a function (Trace_Memo.tla); plus cross-subsystem session walks (preferences, expressions, getters, navigation, routing, rule files damaged and repaired in between) with the complete projected state after every call validated by TLC against the umbrella specification Session.tla (Trace_Session.tla; this property's clauses at property level, the step relation at refinement level); plus the language-selection model LangSelect.tla (TLC refutes three deviations of the pinned commit) whose every 3-call (thorough: 4-call) behaviour is executed and judged by TLC (Trace_LangSelect.tla: same current preference values => same files)",
     text="Design level: TLC explores all interleavings of preference switches (incl. regional variants that share rule files but not Unicode files) and getters over the five rule sets with their shared tables and checks that a getter never answers from a table that is not the one the preferences name. Implementation level: histories simulated from the model, seeded random histories over every shipped language/style/code/engine (away and back, getters in every order and multiplicity, navigation noise, 16 threads at once) and fresh reference sessions are recorded; TLC rejects any two observations with equal key and different output. Histories and schedules are sampled.",
     design_ref="DESIGN.md section 5 C10",
     note="Key completeness: the read-back of every known preference name is the complete assignment. Thread independence rests on the inventory of statics re-derived on every run (a process-wide mutable static is reported as MODEL-DRIFT). Trusted: TLC, the fingerprinting of outputs with ids renamed.",
